@@ -27,19 +27,19 @@ const modulePath = "github.com/a14e/gogreement"
 // Program is the loaded, type-checked and SSA-built tree.
 type Program struct {
 	RecvTerminal func(ci ssa.CallInstruction) bool // see flows.go
-	Root     string // directory of the analysed tree
-	Fset     *token.FileSet
-	Pkgs     []*packages.Package          // all module packages (product + testutil)
-	ByPath   map[string]*packages.Package // import path -> package
-	Product  []*packages.Package          // product packages (no testutil)
-	SSA      *ssa.Program
-	SSAPkg   map[string]*ssa.Package
-	AllFuncs map[*ssa.Function]bool // every function incl. anonymous + instantiations
-	ModFuncs []*ssa.Function        // functions whose package is in the module (product only)
-	cg       *callgraph.Graph
-	cgCHA    *callgraph.Graph
-	LoadSecs float64
-	GOARCH   string
+	Root         string                            // directory of the analysed tree
+	Fset         *token.FileSet
+	Pkgs         []*packages.Package          // all module packages (product + testutil)
+	ByPath       map[string]*packages.Package // import path -> package
+	Product      []*packages.Package          // product packages (no testutil)
+	SSA          *ssa.Program
+	SSAPkg       map[string]*ssa.Package
+	AllFuncs     map[*ssa.Function]bool // every function incl. anonymous + instantiations
+	ModFuncs     []*ssa.Function        // functions whose package is in the module (product only)
+	cg           *callgraph.Graph
+	cgCHA        *callgraph.Graph
+	LoadSecs     float64
+	GOARCH       string
 
 	// lazily built
 	callers       map[*ssa.Function][]ssa.CallInstruction
